@@ -258,8 +258,13 @@ class Interp:
             body = body[keys.index(k0):keys.index(k1) + 1]
             args = list(c.params)
         env = {a: inputs[a] for a in args}
-        for g in c.ghosts:
-            env[g] = inputs[g]
+        for g, gt in c.ghosts.items():
+            if g in inputs:
+                env[g] = inputs[g]
+            elif gt.kind in ("int", "pyint"):
+                env[g] = 0          # a scalar ghost that the generator does not supply: set by ghost code before it is read
+            else:
+                env[g] = inputs[g]
         fr = Frame(qualname, c, fs, env, {})
         for p, ty in c.params.items():
             if ty.kind == "arr" and ty.uninit:
